@@ -518,6 +518,29 @@ def build_workload(tier, seed, ref):
             if tag:
                 kw["sig_tag"] = tag
             cases.append(mk(fam, b, **kw))
+    # ---- pinned E3: a .styluaignore above the working directory is only consulted with --search-parent-directories
+    atree = {".styluaignore": "blocked/\n*.gen.lua\n", "proj/src/x.lua": "return 1\n", "proj/blocked/y.lua": "return 1\n"}
+    above = [("ign3:above-cwd-file-not-consulted", "src/a.gen.lua", False),
+             ("ign3:above-cwd-file-not-consulted:dir-pattern", "blocked/a.lua", False),
+             ("ign3:above-cwd-file-not-consulted:absolute", "{ROOT}/proj/src/a.gen.lua", False),
+             ("ign3:above-cwd-file-not-consulted:bare-name", "a.gen.lua", False),
+             # (with --search-parent-directories the documentation does not say whether ignore files above the
+             # working directory count; only a path that no ignore file matches is generated)
+             ("ign3:above-cwd-file-with-search-parents:not-matching", "-s:src/a.lua", False)]
+    for fam, path, skip in above:
+        pre = []
+        if path.startswith("-s:"):
+            pre, path = ["--search-parent-directories"], path[3:]
+        for n, b in grid_inputs[:: (6 if quick else 2)]:
+            cases.append(mk(fam, b, tree=atree, args=pre + ["--respect-ignores", "--stdin-filepath", path], expect_skip=skip, src=n, cwd_sub="proj"))
+    # ---- pinned E4: what is passed through is passed through whole: long last lines without a line ending
+    for k, (head, tail_len) in enumerate(((b"-- licence\n-- header\n", 1023), (b"-- licence\n", 1024), (b"-- l\n\n", 1025), (b"x=1\n", 5000), (b"", 3000), (b"a=1\nb=2\n", 70000))):
+        body = head + b"local   t={" + b",".join(b"%d" % (i % 10) for i in range(tail_len // 2)) + b"}"
+        cases.append(mk(f"ign:pass-through-long-last-line:{k}", body, tree={".styluaignore": IGNORE_FILE}, args=["--respect-ignores", "--stdin-filepath", "gen/a.lua"], expect_skip=True))
+        cases.append(mk(f"ign:pass-through-long-last-line:{k}:chunk", body, tree={".styluaignore": IGNORE_FILE}, args=["--respect-ignores", "--stdin-filepath", "gen/a.lua"], expect_skip=True, feed="chunk:7"))
+        # the same text formatted up to its first line only: the unformatted tail is printed whole as well
+        if head:
+            cases.append(mk(f"range:long-unformatted-last-line:{k}", body, range=[0, max(len(head) - 1, 1)]))
     # ---- pinned F: multi-megabyte inputs (first, they take longest)
     big = []
     big.append(mk("big:5MB-comments", ("bigcomment", 52000), strace=False))
